@@ -8,7 +8,9 @@ bundle before it removes the original and renames only if something was stored (
 plus the shared addressing/ordering/locking rules C05.c, C06.c, C06.d, C08.d (re-run here as
 C19.d).
 Added in round 4: a removed tile leaves an empty index entry (C19.f); bundle files come into
-existence through write_atomic (C19.d, shared C06.a)."""
+existence through write_atomic (C19.d, shared C06.a).
+Added in round 5: the temporary bundle of a defragmentation starts empty (C19.g); the bundle lock
+file is removed while held (C19.h, shared C07.c)."""
 import ast
 import re
 import struct
